@@ -280,6 +280,17 @@ impl Part for C13 {
                         }
                     }
                 }
+                // keys of the session itself in the wrong role: the receiver's own public key reflected as enc / as sender key
+                for (what, enc_x, pk_s_x) in [("enc = the receiver's own public key", k.pk_r.clone(), k.pk_s.clone()), ("sender key = the receiver's own public key", k.pk_s.clone(), k.pk_r.clone()), ("enc = the sender's identity key", k.pk_s.clone(), k.pk_s.clone())] {
+                    let m2 = ModeSpec { pk_s: if c.mode.has_auth() { pk_s_x } else { vec![] }, ..m.clone() };
+                    let o = ops.setup_receiver(&m2, &k.sk_r, &enc_x, &info);
+                    if let Some(e) = no_panic(&mut out, &format!("setup_receiver({})", what), &o) {
+                        if e != HpkeError::DecapError {
+                            out.fail(format!("setup_receiver({}) failed with {:?}; only DecapError is allowed", what, e));
+                        }
+                    }
+                    no_panic(&mut out, &format!("single_shot_open({})", what), &ops.single_shot_open(&m2, &k.sk_r, &enc_x, &info, &[0u8; 30], b""));
+                }
                 // arbitrary (valid-format) encapsulated keys: any public key is a possible enc
                 for i in 0..8u64 {
                     let other = keys(c.suite.kem, 13_100 + i, cfg.seed);
